@@ -15,6 +15,9 @@ _BUILDOUT_PATH_INSERTION_LIMIT = 10
 
 
 def _abs_path(module_context, str_path: str):
+    if '\0' in str_path:
+        # Not a path on any file system, open()/stat() raise ValueError.
+        return None
     path = Path(str_path)
     if path.is_absolute():
         return path
